@@ -302,6 +302,16 @@ def _evaluate_model(check: Check):
           if isinstance(st.targets[0], ast.Name) and isinstance(b.get('stat'), ast.Name) and st.targets[0].id == b['stat'].id:
             STAT = st.targets[0].id
             loop_ok = isinstance(b.get('batch'), ast.Name) and isinstance(n.ast.target, ast.Name) and b['batch'].id == n.ast.target.id
+  # every batch is merged: no break in the batch loop, the step is on every iteration
+  for n in ff.cfg.nodes:
+    if n.kind == 'for' and ff.param_of(n.ast.iter) == fi.positional_params[2]:
+      brk = [x for x in ast.walk(n.ast) if isinstance(x, ast.Break) and wmean._loop_of(ff, x) is n.ast]
+      step_nodes = [m_ for m_ in ff.cfg.nodes if m_.kind == 'stmt' and isinstance(m_.ast, ast.Assign) and isinstance(m_.ast.value, ast.Call) and
+                    wmean.repo_fn(ff, m_.ast.value) == f'{MODELS}:_evaluate_model_step']
+      every = bool(step_nodes) and wmean._on_every_iteration(ff, n.ast, step_nodes[0])
+      check.ob('R-STAT.loop', fi, 'every batch is merged', not brk and every,
+               'the loop over batches must not stop early or skip a batch: later batches would be dropped and the result would '
+               f'depend on batch order (break statements: {len(brk)}, step on every iteration: {every})')
   init_ok = STAT is not None and any(d.kind == 'assign' and isinstance(d.value, ast.DictComp) and isinstance(d.value.value, ast.Call) and txt(
       d.value.value.func).endswith('.zero') for ds in ff.rd.defs_at.values() for d in ds if d.name == STAT)
   res_ok = any(isinstance(rv, ast.Call) and ff.ext(rv.func) in wmean.TREE_MAPS and isinstance(rv.args[0], ast.Lambda) and isinstance(
